@@ -1,2 +1,12 @@
 import PeptVerif.Props.C10
 #print axioms C10.table_sizes
+#print axioms C10.strip_prefix_key
+#print axioms C10.strip_old_code_cut_at_second_colon
+#print axioms C10.all_clean
+#print axioms C10.all_notNumeric
+#print axioms C10.vocab_facts
+#print axioms C10.spelling_invariant_unimod_prefixed
+#print axioms C10.spelling_invariant_unimod_bare_partial
+#print axioms C10.spelling_invariant_psimod
+#print axioms C10.spelling_invariant_xlmod
+#print axioms C10.entry_without_mass
